@@ -2,6 +2,8 @@ package proxysim
 
 import (
 	"encoding/json"
+
+	"github.com/ozontech/seq-db/verifsim"
 	"fmt"
 	"os"
 	"runtime"
@@ -138,7 +140,7 @@ func TestWorker(t *testing.T) {
 			key := res.Hash + fmt.Sprint(res.Fired)
 			if !seen[key] {
 				seen[key] = true
-				b.Hashes = append(b.Hashes, fmt.Sprintf("%s/%d", res.Hash, len(key)))
+				b.Hashes = append(b.Hashes, fmt.Sprintf("%016x", verifsim.HashStr(key)))
 			}
 		}
 		if b.Sample == nil && nontrivial && i >= 2 {
